@@ -57,7 +57,7 @@ ASSUMPTIONS = [
 PROBES = [
     "cmd_DIFF0", "cmd_DIFF1", "cmd_DIFF2", "cmd_DIFF3", "cmd_QLPC", "cmd_ZERO", "cmd_BLOCKSIZE", "cmd_BITSHIFT",
     "final_short_block", "refill_beyond_first_read", "negative_word", "qlpc_nonzero_coffset",
-    "bitshift_v2_mean", "version_1", "skip_bytes", "ulaw_raw_codes", "shipped_vector",
+    "bitshift_v2_mean", "version_1", "skip_bytes", "ulaw_raw_codes", "shipped_vector", "body_ends_at_read_boundary",
 ]
 FAULT_KINDS = ["truncate", "unknown_cmd", "bad_version", "bad_ftype"]
 
@@ -77,7 +77,7 @@ def generate(rng, tier, k):
     nchan = rng.choice((1, 1, 2, 2, 3, 4))
     P = rng.choice((0, 0, 1, 2, 3, 5, 8))
     M = rng.choice((0, 1, 2, 4, 4))
-    B = rng.choice((1, 2, 3, 4, 7, 8, 16, 32, 61, 128, 256))
+    B = rng.choice((1, 2, 3, 4, 7, 8, 16, 32, 61, 128, 256)) if rng.random() < 0.6 else rng.randrange(1, 300)
     long_run = rng.random() < 0.04
     budget = (14000 if long_run else rng.choice((200, 600, 1500, 4000))) // nchan
     nrounds = rng.randrange(1, 13) if not long_run else 60
@@ -88,7 +88,7 @@ def generate(rng, tier, k):
     for ri in range(nrounds):
         rnd = {}
         if ri and rng.random() < 0.25:
-            B = rng.choice((1, 2, 3, 5, 8, 16, 31, 64, 128, 256))
+            B = rng.choice((1, 2, 3, 5, 8, 16, 31, 64, 128, 256)) if rng.random() < 0.5 else rng.randrange(1, 300)
         if ri == nrounds - 1 and ri and rng.random() < 0.4:
             B = max(1, rng.randrange(1, B + 1))  # shorter final block
             rnd["final_short"] = True
@@ -112,7 +112,8 @@ def generate(rng, tier, k):
             if cmd == "ZERO":
                 blk["data"] = {"kind": "zeros"}
             else:
-                blk["data"] = {"kind": rng.choice(("noise", "noise", "sine", "steps", "zeros", "const")),
+                blk["data"] = {"kind": rng.choice(("noise", "noise", "sine", "steps", "zeros", "const", "meantie")),
+                               "v2": version >= 2,
                                "seed": rng.randrange(1 << 30),
                                "amp": rng.choice((3, 40, 700, 9000, 32767)) if not long_run else 32767}
                 if long_run:
@@ -130,7 +131,11 @@ def generate(rng, tier, k):
             "blocksize0": max(max(r["B"] for r in rounds), rng.choice((1, 1, 1, 256))),
             "nskip_bytes": [rng.randrange(256) for _ in range(rng.choice((0, 0, 0, 2, 5)))],
             "ulong_slack": rng.choice((0, 0, 1, 3)), "rounds": rounds}
-    scn = {"plan": plan, "access": rng.choice(("bytesio", "bytesio", "path", "fileobj")), "fault": None,
+    fit = None
+    if long_run and rng.random() < 0.7:
+        # tune the last block so that the compressed body ends exactly at / next to the first 16 KiB read boundary
+        fit = 16384 + rng.choice((1, 1, 1, -3, 5, 9, 1021 + 1, 1025))
+    scn = {"plan": plan, "fit_body": fit, "access": rng.choice(("bytesio", "bytesio", "path", "fileobj")), "fault": None,
            "dtype_req": "uint8" if (ftype == 8 and rng.random() < 0.3) else None, "hdr_blocks": rng.choice((1, 1, 2)),
            "order_seed": rng.randrange(1 << 20)}
     r = rng.random()
@@ -168,11 +173,57 @@ def gen_samples(data, B, shift, ftype):
         v = np.round(amp * np.sin(np.arange(B) * float(g.uniform(0.01, 1.5)) + float(g.uniform(0, 6))))
     elif kind == "steps":
         v = np.where(g.random(B) < 0.5, amp, -amp - 1)
+    elif kind == "meantie":
+        # block sum (plus the version-2 rounding term) is an exact multiple of the block size: the running mean sits
+        # exactly on an integer, where a sloppy division goes wrong
+        c = int(g.integers(-min(amp, 30000), min(amp, 30000) + 1))
+        v = np.full(B, c)
+        if data.get("v2") and B > 1:
+            v[0] -= B // 2
     else:
         v = np.full(B, int(g.integers(-amp, amp + 1)))
     v = np.clip(v, -32768, 32767).astype(np.int64)
     v = (v >> shift) << shift
     return [int(x) for x in v]
+
+
+def realise_fit(plan, target):
+    """Deterministically cut and tune the plan so that the encoded stream is exactly `target` bytes long (a body that
+    ends right where the decoder's first 16 KiB buffer does); None when no fit is found."""
+    base, _ = realise(plan)
+    enc = shorten_enc.Encoder(dict(base, rounds=[]))
+    nwrap = max(3, base["maxnlpc"])
+    head = []
+    for rnd in base["rounds"]:
+        probe = enc.clone_state()
+        probe.add_round(rnd)
+        bits = len(enc.bw.bits) + len(probe.bw.bits) + enc.tail_bits()
+        if shorten_enc.stream_len(bits) < target:
+            enc.add_round(rnd)
+            head.append(rnd)
+            continue
+        # this round crosses the target: tune its block size and residual widths
+        for Bp in range(rnd["B"], max(0, rnd["B"] - 48), -1):
+            for extra in (0, 1, 2, 3, 4, 5):
+                cand = copy.deepcopy(rnd)
+                cand["B"] = Bp
+                if any(b["cmd"] == "QLPC" for b in cand["blocks"]) and Bp < nwrap:
+                    continue
+                for blk in cand["blocks"]:
+                    blk["samples"] = blk["samples"][:Bp]
+                    blk["extra_resn"] = extra
+                probe = enc.clone_state()
+                probe.add_round(cand)
+                bits = len(enc.bw.bits) + len(probe.bw.bits) + enc.tail_bits()
+                if shorten_enc.stream_len(bits) == target:
+                    p = dict(base, rounds=head + [cand])
+                    cols = [[] for _ in range(p["nchan"])]
+                    for r2 in p["rounds"]:
+                        for c, blk in enumerate(r2["blocks"]):
+                            cols[c].extend(blk["samples"])
+                    return p, np.array(cols, dtype=np.int64).T.reshape(-1, p["nchan"])
+        return None
+    return None
 
 
 def realise(plan):
@@ -265,6 +316,11 @@ def execute(scn, keep_trace=False):
         kinds = set(["DIFF0", "DIFF1", "DIFF2"])
     else:
         plan, expected = realise(scn["plan"])
+        if scn.get("fit_body") and not fault:
+            fitted = realise_fit(scn["plan"], int(scn["fit_body"]))
+            if fitted is not None:
+                plan, expected = fitted
+                res.probe("body_ends_at_read_boundary")
         ftype, nchan = plan["ftype"], plan["nchan"]
         facts.update(version=plan["version"], ftype=ftype)
         expect_err = False
